@@ -50,6 +50,8 @@ SPEC = {
                  "C08_stop_waits", "C08_stop_waits_state", "C08_racing_enqueue_all_or_nothing",
                  "C08_late_enqueue_backs_out", "C08_unbuffered_queue_empty", "C08_counter_in_int32_range", "C08_no_block_forever_partial", "C08_waits_for_ranked", "C08_statement_safety",
                  "C08_no_block_forever", "C08_enqueue_send_unblocked_by_writer", "C08_stop_wait_released", "C08_statement_holds",
+                 "C08_store_error_safety", "C08_store_error_crash_is_final", "C08_failed_commit_batch_never_done",
+                 "C08_store_error_stop_never_returns_witness",
                  "C08_old_racing_enqueue_witness", "C08_old_stop_waits_witness", "C08_old_no_block_forever_witness",
                  "C08_old_statement_witness", "C08_loop_condition_order_witness", "C08_skeleton_Enqueue", "C08_skeleton_startBatchWriter",
                  "C08_skeleton_StopBatchWriter", "C08_skeleton_Flush", "C08_skeleton_runBatchWriter",
